@@ -483,6 +483,16 @@ func cycleSupport() []irgen.ObjSpec {
 		{Name: "AliasS", T: irgen.Ref("p.S")},
 		{Name: "Rec", T: irgen.Struct1("next", true, irgen.Ref("p.Rec"))},
 		{Name: "Dangling", T: irgen.Ref("p.Missing")},
+		// chains of aliases leading INTO a cycle / a recursive alias / nowhere
+		{Name: "IntoCyc", T: irgen.Ref("p.Cyc1")},
+		{Name: "IntoCyc2", T: irgen.Ref("p.IntoCyc")},
+		{Name: "IntoSelf", T: irgen.Ref("p.Self")},
+		{Name: "IntoArrSelf", T: irgen.Ref("p.ArrSelf")},
+		{Name: "IntoDangling", T: irgen.Ref("p.Dangling")},
+		{Name: "Cyc3a", T: irgen.Ref("p.Cyc3b")},
+		{Name: "Cyc3b", T: irgen.Ref("p.Cyc3c")},
+		{Name: "Cyc3c", T: irgen.Ref("p.Cyc3a")},
+		{Name: "IntoCyc3", T: irgen.Ref("p.Cyc3b")},
 		// a struct whose constant-reference field is not the last one
 		{Name: "CS", T: irgen.StructN([]irgen.Field{{Name: "mode", Required: true}, {Name: "label", Required: true}, {Name: "size", Required: false}}, []irgen.Term{irgen.ConstRef("p.E"), irgen.S("string"), irgen.S("int64")})},
 		{Name: "MAlias", T: irgen.Map(irgen.S("string"))},
@@ -513,7 +523,7 @@ func irSpace(thorough bool, reachable map[string]bool, values []string) []irInpu
 	if thorough {
 		leaves = append([]irgen.Term{}, irgen.DefaultLeaves()...)
 	}
-	refs := []string{"p.Missing", "q.Missing", "p.Root", "p.Cyc1", "p.Count", "p.AliasS", "p.Rec", "p.Dangling", "p.T", "p.ArrSelf", "p.MapSelf", "p.ArrA", "p.MapArr", "p.CS"}
+	refs := []string{"p.Missing", "q.Missing", "p.Root", "p.Cyc1", "p.Count", "p.AliasS", "p.Rec", "p.Dangling", "p.T", "p.ArrSelf", "p.MapSelf", "p.ArrA", "p.MapArr", "p.CS", "p.IntoCyc", "p.IntoCyc2", "p.IntoSelf", "p.IntoArrSelf", "p.IntoDangling", "p.IntoCyc3", "p.Cyc3a"}
 	if thorough {
 		refs = append(refs, "p.Self")
 	}
@@ -541,7 +551,28 @@ func irSpace(thorough bool, reachable map[string]bool, values []string) []irInpu
 		}
 		cfg.Wrappers = []string{"array", "map", "struct-req", "struct-opt", "nullable", "disj-null", "disj", "inter"}
 	}
+	// the chains of aliases leading into a cycle: unwrapped in the quick tier
+	// (when they hang, they hang for every wrapper)
+	rho := []string{"p.IntoCyc", "p.IntoCyc2", "p.IntoSelf", "p.IntoArrSelf", "p.IntoDangling", "p.IntoCyc3", "p.Cyc3a"}
+	if !thorough {
+		var kept []irgen.Term
+		for _, l := range cfg.Leaves {
+			isRho := false
+			for _, r := range rho {
+				isRho = isRho || l.K == "ref" && l.A == r
+			}
+			if !isRho {
+				kept = append(kept, l)
+			}
+		}
+		cfg.Leaves = kept
+	}
 	terms := irgen.Types(cfg)
+	if !thorough {
+		for _, r := range rho {
+			terms = append(terms, irgen.Ref(r))
+		}
+	}
 	var out []irInput
 	cyc := map[string]irgen.ObjSpec{}
 	for _, o := range cycleSupport() {
@@ -590,6 +621,11 @@ func irSpace(thorough bool, reachable map[string]bool, values []string) []irInpu
 		}
 		t := special(v)
 		terms = append(terms, t)
+		if strings.HasPrefix(v, "v|enum|") {
+			// enums are folded when they are the branches of a union: with
+			// themselves, with a plain enum, with a constant
+			terms = append(terms, irgen.Disj(t, t), irgen.Disj(t, irgen.Enum("str")), irgen.Disj(irgen.Enum("int"), t), irgen.Disj(t, irgen.Const("str")), irgen.Disj(t, irgen.Ref("p.E")))
+		}
 		if thorough {
 			terms = append(terms, irgen.Array(t), irgen.Map(t), irgen.Disj(t, irgen.S("string")), irgen.Nullable(t))
 		}
